@@ -64,6 +64,9 @@ def vals_of(arr):
     return flat
 
 
+POOL_TIES = False        # the sort-ties phase: the integer pool object holds [2, 0, 2]
+
+
 class World:
     def __init__(self):
         import osyris
@@ -72,7 +75,7 @@ class World:
         self.objs = [A(np.array([3.0, 1.0, 2.0]), unit="m"), A(np.array([20.0, 30.0, 10.0]), unit="s"),
                      A(np.array([7.0, 5.0]), unit="m"), A(9.0, unit="m"),
                      V(np.array([100.0, 300.0, 200.0]), np.array([4.0, 6.0, 5.0]), unit="cm"),
-                     A(np.array([2, 0, 1], dtype=np.int64)), A(np.array([500.0, 700.0, 100.0]), unit="cm"),
+                     A(np.array([2, 0, 2] if POOL_TIES else [2, 0, 1], dtype=np.int64)), A(np.array([500.0, 700.0, 100.0]), unit="cm"),
                      A(np.array([6.0, 2.0, 4.0], dtype=np.float32), unit="m"), A(np.array([900.0, 900.0, 900.0]), unit="cm"),
                      A(np.array([600.0, 200.0, 400.0]), unit="cm")]
         self.maskbuf = np.zeros(3, dtype=bool)        # one mask buffer reused (rewritten in place) by every mask index of length 3
